@@ -1574,14 +1574,18 @@ bool MEDDLY::dd_edge::getElemInt(long index, minterm &m) const
     if (index < 0) return false;
 
     node_handle p = node;
-    // The empty set (terminal root) has no elements
-    if (fp->isTerminalNode(p)) return false;
+    // The empty set has no elements
+    if (0 == p) return false;
     unpacked_node* U = unpacked_node::New(fp, SPARSE_ONLY);
     for (unsigned k = fp->getNumVariables(); k; --k) {
         //
-        // I don't think index sets can skip levels at all
+        // Index sets skip a level only when its variable
+        // has a single value (offsets differ otherwise)
         //
-        MEDDLY_DCASSERT(k == fp->getNodeLevel(p));
+        if (int(k) != fp->getNodeLevel(p)) {
+            m.from(k) = 0;
+            continue;
+        }
         U->initFromNode(p);
 
         //
@@ -1633,14 +1637,18 @@ bool MEDDLY::dd_edge::getElemLong(long index, minterm &m) const
     if (index < 0) return false;
 
     node_handle p = node;
-    // The empty set (terminal root) has no elements
-    if (fp->isTerminalNode(p)) return false;
+    // The empty set has no elements
+    if (0 == p) return false;
     unpacked_node* U = unpacked_node::New(fp, SPARSE_ONLY);
     for (unsigned k = fp->getNumVariables(); k; --k) {
         //
-        // I don't think index sets can skip levels at all
+        // Index sets skip a level only when its variable
+        // has a single value (offsets differ otherwise)
         //
-        MEDDLY_DCASSERT(k == fp->getNodeLevel(p));
+        if (int(k) != fp->getNodeLevel(p)) {
+            m.from(k) = 0;
+            continue;
+        }
         U->initFromNode(p);
 
         //
